@@ -374,6 +374,8 @@ func (pv *prov) call(c *ssa.Call, resultIdx int, pd, d int) {
 		name = funcLeafName(cf)
 	} else {
 		name = "dynamic"
+		// the function value itself (e.g. a package-level func variable)
+		pv.walk(c.Call.Value, pd, d+1)
 	}
 	pv.add("call:" + name)
 	if pv.opts.IntoCallees {
